@@ -3,6 +3,7 @@
 package main
 
 import (
+	"strings"
 	"context"
 	"fmt"
 	"os"
@@ -149,7 +150,7 @@ func genC03Cases(e *Env) []xferCase {
 		}
 	}
 	// (c) resume histories
-	for _, h := range []string{"partial", "complete", "late-report", "partial+late-report"} {
+	for _, h := range []string{"partial", "complete", "late-report", "partial+late-report", "leftover-samecs", "leftover-samecount", "leftover-othercount"} {
 		for k := 0; k < e.Pick(90, 160); k++ {
 			c := xferCase{Shape: []string{"boundary", "manysmall", "nested", "onefile"}[r.Intn(4)], Names: "plain", TSeed: r.U64(), History: h}
 			c.Cfg.Streams, c.Cfg.Resume = 1+r.Intn(4), true
@@ -246,6 +247,17 @@ func runC03Case(e *Env, lp *vk.ListenerPool, c xferCase) xferOutcome {
 		}
 	case "late-report":
 		late = true
+	case "leftover-samecs", "leftover-samecount", "leftover-othercount":
+		// the state an earlier, interrupted session with the same / another
+		// chunk size left behind (scattered recorded chunks)
+		cfgL := c.Cfg
+		if cfgL.ChunkSize < 7 {
+			cfgL.ChunkSize = 7
+		}
+		if _, _, err := synthLeftover(cfgL, src, outDir, strings.TrimPrefix(c.History, "leftover-"), c.TSeed); err != nil {
+			out.Err = "leftover: " + err.Error()
+			return out
+		}
 	}
 	cfg := c.Cfg
 	cfg.SendDeco = &vk.Deco{}
